@@ -40,6 +40,8 @@ def worlds(tier):
         w.W("five-releases-two-of-them-after-the-loop-timeout-EDF", [w.G(f"G{i}", [f"T{i}"], [], release=r, deadline=10 ** 6) for i, r in enumerate((20, 40, 40, 700, 900))], w.C1, "EDF",
             timeout=500, must_complete=["T0", "T1", "T2"], split=5, weight=10, tasks={f"T{i}": {"strategies": [{"rt": ["sym", 1, 8]}]} for i in range(5)}),
         w.W("chain2-child-with-its-own-release-time-EDF", w.chain(2), w.C1, "EDF", work_conserving=True, split=5, weight=10, tasks={"T1": {"release": "sym"}}),
+        w.W("second-graph-released-at-a-time-written-in-milliseconds-EDF", [w.G("G0", ["T0"], [], release=0, deadline=10 ** 6), dict(w.G("G1", ["T1"], [], release=["sym", 0, 2], deadline=10 ** 6), release_unit="MS")],
+            w.C1, "EDF", work_conserving=True, split=5, weight=10, tasks={"T0": {"strategies": [{"rt": ["sym", 1, 400]}]}, "T1": {"strategies": [{"rt": ["sym", 1, 9]}]}}),
         w.W("join3-2cpu-FIFO", w.fixed_times(w.join()), w.C2, "FIFO", work_conserving=True, split=6),
         w.W("cond2-1cpu-EDF", w.fixed_times(w.cond2()), w.C1, "EDF", split=6, weight=30),
         w.W("one-task-EDF-scheduler-runtime", w.indep(1), w.C1, "EDF", sched_runtime=["sym", 0, 5], work_conserving=True),
